@@ -813,7 +813,35 @@ def rule_python_parameters(ctx, rule='R16.10', only=None):
     ctx.covered(rule, 'parameters of the Python layer that are read in the body of their function (%d frozen exceptions)' % len(DEAD_PARAMS_OK), n, floor=4 if only else 300)
 
 
+def rule_variational_transport(ctx, rule='R16.11'):
+    """R16.11: the first-order variation of a Kepler step is linear in the variation: besides the terms through the varied
+    orbit (dr0, dbeta, deta0) it always contains the transport f*dx + g*dv of the variation itself. Whatever the values
+    computed inside the loop over the variational configurations, every pass must store the transformed variational
+    particle: the stores into p_j[i+index] in reb_whfast_kepler_solver are reached unconditionally within the loop (no
+    `continue` for "nothing to vary" before them)."""
+    from . import pathcond
+    tu = cfront.load_tu('integrator_whfast.c')
+    fn = tu.func('reb_whfast_kepler_solver')
+    pc = pathcond.conditions(fn)
+    loops = [f for f in walk(cfront.body(fn)) if f.get('kind') == 'ForStmt' and f['inner'][2] and 'N_var_config' in render(f['inner'][2])]
+    anchor(len(loops) == 1, 'loop over the variational configurations in reb_whfast_kepler_solver')
+    loop = loops[0]
+    outer = set(pc.get(id(loop), []))
+    n = 0
+    for e in walk(loop['inner'][-1]):
+        if is_assign(e) and re.match(r'^p_j\[\(?i\+\w+\)?\]\.(x|y|z|vx|vy|vz)$', render(e['inner'][0]).replace(' ', '')):
+            n += 1
+            extra = [c for c in pc.get(id(e), []) if c not in outer and 'N_var_config' not in c]
+            if extra:
+                ctx.report(rule, 'kepler:var:conditional', 'src/integrator_whfast.c:%s reb_whfast_kepler_solver' % line_of(e),
+                           'the store of the transformed variational particle (%s) is only reached if %s: in the other case the variation keeps its old value although the linear transport f*dx + g*dv applies to every variation (an out-of-plane variation of a coplanar system has dr0 = dbeta = deta0 = 0 and is still carried along the orbit)'
+                           % (render(e['inner'][0]), extra))
+    anchor(n >= 6, 'stores into the variational particle in the Kepler solver (found %d)' % n)
+    ctx.covered(rule, 'Kepler step: the variational particle is stored on every pass of the loop over the configurations', n, floor=6)
+
+
 def run(ctx):
+    rule_variational_transport(ctx)
     from . import c12 as _c12
     _c12.rule_slices(ctx)                 # R12.1: the acc variant of a transformation (used for the variational kick) is the pos variant's map
     from . import c20
